@@ -27,6 +27,7 @@ package main
 
 import (
 	"bytes"
+	"encoding/json"
 	"flag"
 	"fmt"
 	"os"
@@ -36,6 +37,7 @@ import (
 	"time"
 
 	"github.com/canopy-network/canopy/lib"
+	"github.com/canopy-network/canopy/lib/crypto"
 
 	"verifharness/env"
 	"verifharness/mc"
@@ -129,7 +131,28 @@ func pass1(j job) (res result) {
 			other, _ = w.R.Propose()
 		}
 		w.A.SubmitTxs(out.txs...)
-		p, e := w.A.Propose(out.evidence...)
+		var vdf *crypto.VDF
+		var e lib.ErrorI
+		switch out.vdf {
+		case "bad":
+			vdf = &crypto.VDF{Proof: []byte("not a proof"), Output: []byte("not an output"), Iterations: 7}
+		case "good":
+			if vdf, e = w.A.GoodVDF(4); e != nil {
+				res.HarnessErr = "vdf: " + e.Error()
+				return
+			}
+		}
+		if vdf != nil {
+			rec.VDF, _ = json.Marshal(vdf)
+		}
+		if out.twice {
+			if _, e = w.A.ProposeVDF(vdf.Copy(), out.evidence...); e != nil {
+				res.Viols = append(res.Viols, viol(j, i, []problem{{"propose", "ProduceProposal (first of two): " + oneLine(e)}})...)
+				return
+			}
+		}
+		var p *env.Proposal
+		p, e = w.A.ProposeVDF(vdf, out.evidence...)
 		if e != nil {
 			res.Viols = append(res.Viols, viol(j, i, []problem{{"propose", "ProduceProposal: " + oneLine(e)}})...)
 			return
@@ -289,7 +312,15 @@ func pass2(j job) (res result) {
 		var ps []problem
 		// proposer path again, from the same mempool bytes
 		w.A.SubmitTxs(rec.Txs...)
-		p2, e := w.A.Propose(be.DSE.Evidence...)
+		var vdf2 *crypto.VDF
+		if rec.VDF != nil {
+			vdf2 = new(crypto.VDF)
+			if e := json.Unmarshal(rec.VDF, vdf2); e != nil {
+				res.HarnessErr = e.Error()
+				return
+			}
+		}
+		p2, e := w.A.ProposeVDF(vdf2, be.DSE.Evidence...)
 		if e != nil {
 			ps = append(ps, problem{"propose@process2", "ProduceProposal: " + oneLine(e)})
 		} else {
